@@ -73,8 +73,8 @@ func run(c *hlib.Ctx) {
 // G wraps the context with a few random helpers.
 type G struct{ *hlib.Ctx }
 
-func (g *G) p(prob float64) bool       { return g.Rng.Float64() < prob }
-func (g *G) half(span int) float64     { return g.Dyadic(span, 1) }
+func (g *G) p(prob float64) bool        { return g.Rng.Float64() < prob }
+func (g *G) half(span int) float64      { return g.Dyadic(span, 1) }
 func (g *G) pickF(xs []float64) float64 { return xs[g.Rng.Intn(len(xs))] }
 func (g *G) pickI(xs []int) int         { return xs[g.Rng.Intn(len(xs))] }
 
@@ -86,9 +86,9 @@ func c2(v V) model2d.Coord   { return model2d.XY(v[0], v[1]) }
 func v3(c model3d.Coord3D) V { return V{c.X, c.Y, c.Z} }
 func v2(c model2d.Coord) V   { return V{c.X, c.Y, 0} }
 
-func (a V) add(b V) V          { return V{a[0] + b[0], a[1] + b[1], a[2] + b[2]} }
-func (a V) sub(b V) V          { return V{a[0] - b[0], a[1] - b[1], a[2] - b[2]} }
-func (a V) scale(s float64) V  { return V{a[0] * s, a[1] * s, a[2] * s} }
+func (a V) add(b V) V         { return V{a[0] + b[0], a[1] + b[1], a[2] + b[2]} }
+func (a V) sub(b V) V         { return V{a[0] - b[0], a[1] - b[1], a[2] - b[2]} }
+func (a V) scale(s float64) V { return V{a[0] * s, a[1] * s, a[2] * s} }
 func (a V) along(d V, t float64) V {
 	return V{a[0] + d[0]*t, a[1] + d[1]*t, a[2] + d[2]*t}
 }
@@ -172,7 +172,7 @@ func (t *toks) v(dim int, vs ...V) *toks {
 	return t
 }
 func (t *toks) b(dim int, b box) *toks { return t.v(dim, b.lo, b.hi) }
-func (t *toks) String() string        { return strings.Join(t.w, " ") }
+func (t *toks) String() string         { return strings.Join(t.w, " ") }
 
 func b01(b bool) string {
 	if b {
